@@ -156,4 +156,9 @@ def check(ctx: Ctx) -> str:
         ok = len(builds) == 1 and not nested and ast.unparse(builds[0].value.args[1]) != ast.unparse(builds[0].value.args[0])
         ctx.check(ok, f"{meth}:builds", f"parser:Parser.{meth}", f"operator loop of {meth} does not always build the node",
                   f"{meth} must build <operator class>(left, right) for every operator token it consumes; loop body: {[ast.unparse(s_)[:50] for s_ in body]}", fi.loc(loops[0]))
+    # an overlay with other options (autoescape, sandbox interception) must compile its own
+    # templates: it starts with an empty cache (rule owned by C25)
+    from . import c25
+
+    ctx.run_imported("C25", {"R4"}, c25.check)
     return __doc__ or ""
